@@ -17,3 +17,21 @@ def stub_copyset() -> list:
             return builtins.frozenset(it)
     vmf.frozenset = _fs
     return ["srctools.vmf.frozenset -> real frozenset of the underlying set table, untraced (CopySet.__iter__)"]
+
+
+def stub_array() -> list:
+    """CrossHair replaces array.array by a SymbolicArray model that (a) treats 'i' as 16-bit and (b) cannot `extend()` from a generator
+    (Side._parse_displacement_data does `Array('i').extend(map(int, ...))` -> TypeError inside the model). The displacement
+    allowed_verts hold concrete ints in every C06 harness, so the real array type is used, constructed untraced."""
+    import array as _array_mod
+    import srctools.vmf as vmf
+    from crosshair.core import deep_realize
+    from crosshair.tracers import NoTracing
+    real = _array_mod.array
+
+    def Array(code, init=()):
+        vals = deep_realize([v for v in init])
+        with NoTracing():
+            return real(code, vals)
+    vmf.Array = Array
+    return ["srctools.vmf.Array -> real array.array built untraced from realised (concrete) items"]
